@@ -122,6 +122,24 @@ def check_no_push(ctx):
         ctx.mismatch('C20:push-forges-ticket:%s' % name, 'PUSH %s %s is accepted: a ticket that no TICKET instruction minted' % (json.dumps(tj), json.dumps(v)), {'family': 'push', 'type': name})
 
 
+def check_no_smuggling(ctx):
+    """A well-typed program in which a ticket ends up in a list that started out as an empty list nat (MAP over the empty list produces the ticket type; the
+    body never runs): whatever an implementation does with the element type of that empty list, DUP of the list holding the ticket must not succeed.
+    (On the pinned tree the program stops earlier, at CONS - the recorded C02 finding about MAP over empty collections; that is a failure, not a duplicate.)"""
+    from .. import vmreplay
+    body = (DROP(1), PUSH(STR, s('c')), PUSH(NAT, i(5)), MK)
+    for name, prog in (('cons-then-dup', (('MAP', body), ('SWAP',), ('CONS',), DUP(1))),
+                       ('cons-then-dup-join', (('MAP', body), ('SWAP',), ('CONS',), DUP(1), ('IF_CONS', (('SWAP',), DROP(1)), FAILS), ('SWAP',),
+                                               ('IF_CONS', (('SWAP',), DROP(1)), FAILS), ('PAIR', 2), ('JOIN_TICKETS',)))):
+        init = (S(LIST(NAT), lst()), S(TKT, TK(SELF, 'c', 5)))
+        ctx.count(('smuggle', name), nontrivial=True)
+        ctx.replayed += 1
+        got = vmreplay.run_impl(init, {'SELF_ADDRESS': SELF}, prog)
+        if got[0] == 'running':
+            ctx.mismatch('C20:ticket-duplicated-through-empty-list-type:%s' % name, 'program %s on %s runs to the end: the list holding the ticket was duplicated (stack %s)' % (
+                json.dumps(to_json(prog)), json.dumps(to_json(init)), got[1]), {'family': 'smuggle', 'name': name})
+
+
 def terms_value(t, v):
     from .. import terms
     return terms.value_json(t, v)
@@ -149,11 +167,17 @@ def run(ctx):
     C01.run_families(ctx, 'C20', 'ticket', {'ticket': f}, extra_inv='INVARIANT NoZeroTicket\nPROPERTY TicketConservation', replay_fn=replay_fn)
     check_no_unpack(ctx)
     check_no_push(ctx)
+    check_no_smuggling(ctx)
     ctx.exhaustive = True
 
 
 def replay(ctx, rep):
     C01.ASPECTS['C20'] = {'status', 'value', 'type', 'failwith-value'}
+    if rep['case'].get('family') in ('smuggle', 'push'):
+        check_no_smuggling(ctx) if rep['case']['family'] == 'smuggle' else check_no_push(ctx)
+        for m in ctx.mismatches:
+            print('REPRODUCED', m.signature, m.detail[:600])
+        return 1 if ctx.mismatches else 0
     return C01.replay(ctx, rep)
 
 
